@@ -822,11 +822,15 @@ theorem monoE (env : Env) (henv : envGround env = true) (ctx : Ctx) (e e' : Expr
       | error err => simp [hsl] at hs
       | ok p =>
         obtain ⟨ts', dl⟩ := p
-        simp only [hsl, pure, Except.pure, Except.ok.injEq, Prod.mk.injEq] at hs
-        obtain ⟨x1, x2⟩ := hs; subst x1; subst x2
-        obtain ⟨hd, ts, h1, _, _⟩ := monoList env henv ctx es es' g g' ts' dl hf hg hsl
-        subst hd
-        exact ⟨rfl, .string, by simp [synth, bind, Except.bind, h1, pure, Except.pure], by simp [inst], by simp [ground]⟩
+        simp only [hsl] at hs
+        by_cases hpr : ts'.all printable = true
+        · simp only [hpr, ↓reduceIte, pure, Except.pure, Except.ok.injEq, Prod.mk.injEq] at hs
+          obtain ⟨x1, x2⟩ := hs; subst x1; subst x2
+          obtain ⟨hd, ts, h1, h2, _⟩ := monoList env henv ctx es es' g g' ts' dl hf hg hsl
+          subst hd
+          have hpf := instList_printable ts ts' h2 hpr
+          exact ⟨rfl, .string, by simp [synth, bind, Except.bind, h1, hpf, pure, Except.pure], by simp [inst], by simp [ground]⟩
+        · simp [hpr, fail] at hs
     | _ => simp [fillsE] at hf
   | listLit es =>
     cases e' with
